@@ -416,6 +416,15 @@ def open_source(spec, scratch=None):
             g = ux.open_grid(path, chunks={}) if dialect.get("chunks") else ux.open_grid(path)
         else:
             raise ValueError(f"unknown provenance {prov}")
+        # the grid must describe the faces it was given (face order kept, corner positions in
+        # cyclic order): every model-based oracle below starts from that
+        try:
+            am = aligned_model(g)
+            why = M.faces_match(mesh, am.lon, am.lat, am.conn(), tol=1e-9, ordered=True)
+        except Exception as e:
+            why = f"{type(e).__name__}: {str(e)[:120]}"
+        if why:
+            raise ProvenanceFailure("decode", ValueError(f"the grid built by {prov} does not have the faces handed to it: {why}"))
         g = derive_provenance(g, spec)
         return Source(spec, g, aligned_model(g), inputs, mesh)
 
